@@ -223,13 +223,22 @@ static int wait_created (int n) {          /* returns 0 if the note could not be
 
 /* ------------------------------------------------------------------------------------------ */
 /* wait-return oracle (C05) */
+/* does a deadline (own, an ancestor's, or one inherited from a freed ancestor) contribute to note n?  Deadline-driven
+   notification is lazy -- it is delivered by whoever next looks at the note, typically the waiter's own timer, which may fire a
+   little after the deadline (timer granularity, relative kernel timeouts) -- so the "woken by the notification, not by its own
+   timer" rules are only applied to notes that can be notified by explicit nsync_note_notify calls alone */
+static int note_chain_has_deadline (int n) {
+	int a;
+	for (a = n; a >= 0; a = NM[a].parent) if (NM[a].dl_ns >= 0 || NM[a].inh_dl >= 0) return 1;
+	return 0;
+}
 static void check_wait_return (const char *what, int mi, int writer, int r, int64_t dl_ns, int ni) {
 	int64_t now = nsim_now_ns ();
 	check_held ("C05", what, mi, writer);
 	/* "once the note is notified the call needs no further wake-up": every notification posts the note's waiters before it
 	   returns, so a wait that was still asleep after all notifications had returned, and was released only by its own timer,
 	   was not on the note's waiter list (or was not woken from it) */
-	if (ni >= 0 && NM[ni].settled_ns >= 0 && nsim_op_last_timer_wake_ns () > NM[ni].settled_ns) {
+	if (ni >= 0 && NM[ni].settled_ns >= 0 && !note_chain_has_deadline (ni) && nsim_op_last_timer_wake_ns () > NM[ni].settled_ns) {
 		VIOL ("C05", "cancelled-wait-slept-on", "%s with cancel note %d was released by its own timer %lld ns after every notification of the note had returned: "
 		      "it slept on although the note was notified", what, ni, (long long) (nsim_op_last_timer_wake_ns () - NM[ni].settled_ns));
 	}
@@ -625,7 +634,7 @@ static void op_note_wait (op_t *o) {
 	if (nsim_op_sleeps () > 0) nsim_probe (PR_BLOCKED);
 	/* a waiter must be released by the notification, not merely find the note notified when its own timer fires: every
 	   notify posts its waiters before it returns, so once nothing is in flight (settled) no waiter can still be asleep */
-	if (r && NM[n].settled_ns >= 0 && nsim_op_last_timer_wake_ns () > NM[n].settled_ns) {
+	if (r && NM[n].settled_ns >= 0 && !note_chain_has_deadline (n) && nsim_op_last_timer_wake_ns () > NM[n].settled_ns) {
 		VIOL ("C08", "released-only-by-own-timer", "nsync_note_wait(%d) reports the note notified but the waiter slept until its own timer fired, %lld ns after "
 		      "every notification of the note and its ancestors had returned", n, (long long) (nsim_op_last_timer_wake_ns () - NM[n].settled_ns));
 	}
